@@ -171,11 +171,14 @@ pub fn run_check(ctx: &Ctx) -> i32 {
                         for g in [false, true] {
                             variants.push(Cfg { fail_at: Some(kf), graceful_handler: g, bail_out_handlers: if g { 1 } else { 0 }, ..conf.cfg.clone() });
                         }
+                        // a bail-out handler that appends an empty string (and then its marker)
+                        variants.push(Cfg { fail_at: Some(kf), graceful_handler: true, bail_out_handlers: 2, bail_out_payload: Some((String::new(), kf % 2 == 0)), ..conf.cfg.clone() });
                     }
                     for &m in mems {
                         for g in [false, true] {
                             variants.push(Cfg { mem: Some((m, 0)), graceful_mem: g, ..conf.cfg.clone() });
                         }
+                        variants.push(Cfg { mem: Some((m, 0)), graceful_mem: true, bail_out_handlers: 1, bail_out_payload: Some((String::new(), true)), ..conf.cfg.clone() });
                     }
                 }
                 for (vi, cfg) in variants.iter().enumerate() {
